@@ -3,7 +3,13 @@
 package gengo
 
 import (
+	"errors"
+	"go/parser"
+	"path"
+	"strconv"
 	"strings"
+
+	"github.com/octohelm/gengo/pkg/namer"
 
 	gengotypes "github.com/octohelm/gengo/pkg/types"
 )
@@ -53,6 +59,177 @@ func spec_importGoPath(p string) string {
 //@   loop 2 invariant forall a int :: 0 <= a && a < it2 ==> eq(mergedTags[ks2[a]], tags[ks2[a]])
 //@   loop 2 invariant forall k string, i int :: 0 <= i && i < it1 && has(tagsList[i], k) && (forall j int :: i < j && j < it1 ==> !has(tagsList[j], k)) && (forall a int :: 0 <= a && a < it2 ==> ks2[a] != k) ==> eq(mergedTags[k], tagsList[i][k])
 
+// ---- orchestration: Execute / pkgExecute / doGenerate / WriteToFile (C02 C05 C06 C07) ----
+
+//@ func Generator.GenerateType
+//@   calllog 1
+//@   note user code: may do anything to the heap; ASSUMED to perform no file-system effect of its own; each invocation is recorded in the ghost call log with the error it returned
+
+//@ func AliasGenerator.GenerateAliasType
+//@   calllog 2
+//@   note user code, like Generator.GenerateType
+
+//@ func AliasGenerator.Name
+//@   pure
+
+// spec_swallowed: the only generator errors that do not abort the package.
+func spec_swallowed(e error) bool {
+	return e != nil && (errors.Is(e, ErrSkip) || errors.Is(e, ErrIgnore))
+}
+
+// spec_lastCall: the most recent entry of the ghost call log.
+func spec_lastCall() spec_Call { return spec_calls()[len(spec_calls())-1] }
+
+//@ func gengoCtx.doGenerateNamedType
+//@   props C02 C06 C07
+//@   requires c != nil && c.l != nil && g != nil && x != nil
+//@   assigns *
+//@   effects
+//@   ensures eq(spec_fx(), old(spec_fx()))
+//@   ensures len(spec_calls()) == len(old(spec_calls()))+1 && eq(spec_calls()[:len(old(spec_calls()))], old(spec_calls()))
+//@   ensures spec_lastCall().Kind == spec_GenType && spec_lastCall().Gen == g && spec_lastCall().Obj == x
+//@   ensures spec_lastCall().Err == nil || spec_swallowed(spec_lastCall().Err) ==> result == nil
+//@   ensures spec_lastCall().Err != nil && !spec_swallowed(spec_lastCall().Err) ==> result == spec_lastCall().Err
+//@   ensures spec_lastCall().Err != nil && !errors.Is(spec_lastCall().Err, ErrSkip) && errors.Is(spec_lastCall().Err, ErrIgnore) ==> c.ignore
+
+//@ func gengoCtx.doGenerateAliasType
+//@   props C02 C06
+//@   requires c != nil && c.l != nil && g != nil && x != nil
+//@   assigns *
+//@   effects
+//@   ensures eq(spec_fx(), old(spec_fx()))
+//@   ensures len(spec_calls()) == len(old(spec_calls()))+1 && eq(spec_calls()[:len(old(spec_calls()))], old(spec_calls()))
+//@   ensures spec_lastCall().Kind == spec_GenAlias && spec_lastCall().Gen == g && spec_lastCall().Obj == x
+//@   ensures spec_lastCall().Err == nil || spec_swallowed(spec_lastCall().Err) ==> result == nil
+//@   ensures spec_lastCall().Err != nil && !spec_swallowed(spec_lastCall().Err) ==> result == spec_lastCall().Err
+
+//@ func GeneratorNewer.New
+//@   note user code (custom constructor): unknown effects; ASSUMED to return a generator that shares no per-package state with earlier ones
+
+// spec_isNewer: the generator supplies its own constructor.
+func spec_isNewer(g Generator) bool { _, ok := g.(GeneratorNewer); return ok }
+
+//@ func gengoCtx.New
+//@   props C05
+//@   requires generator != nil
+//@   assigns *
+//@   ensures !spec_isNewer(generator) ==> fresh(result) && result != generator
+//@   note every package gets its own generator value: unless the generator has a custom New, the result is a freshly allocated value (reflect.New), never the registered prototype
+
+//@ func newGenfile
+//@   props C05 C07
+//@   pure
+//@   ensures fresh(result) && result.name == name
+//@   ensures fresh(result.body) && spec_written(result.body) == ""
+//@   ensures fresh(result.imports) && result.imports != nil
+
+//@ func NewSnippetWriter
+//@   props C05
+//@   pure
+//@   ensures fresh(result) && result.(*snippetWriter).Writer == w
+
+//@ func genfile.InitWith
+//@   props C05
+//@   requires ff != nil && c != nil && c.Package("") != nil && c.Package("").Pkg() != nil
+//@   assigns ff.SnippetWriter
+//@   ensures result == nil && ff.SnippetWriter != nil && fresh(ff.SnippetWriter)
+//@   ensures ff.SnippetWriter.(*snippetWriter).Writer == ff.body
+//@   note the snippet writer of a genfile writes into that genfile's own buffer (and its raw namer is bound to that genfile's own import tracker, see NewRawNamer)
+
+//@ func Context.Package
+//@   pure
+//@   note interface method of gengo.Context (implemented by *gengoCtx): observer
+
+// spec_importLines(keys, m, n): the import lines of the first n paths: TAB name SPACE "path" NEWLINE.
+func spec_importLines(keys []string, m map[string]string, n int) string {
+	if n <= 0 {
+		return ""
+	}
+	return spec_importLines(keys, m, n-1) + "\t" + m[keys[n-1]] + " \"" + keys[n-1] + "\"\n"
+}
+
+// spec_importBlock(m): the import block printed for the path->name table m: nothing for an empty table, else one
+// line per path in ASCENDING path order — a function of the table's contents only (C04), binding exactly the
+// registered packages under their registered names (C03).
+func spec_importBlock(m map[string]string) string {
+	if len(m) == 0 {
+		return ""
+	}
+	return "\nimport (\n" + spec_importLines(spec_sortedKeys(m), m, len(m)) + ")\n"
+}
+
+//@ func writeImports
+//@   props C01 C03 C04
+//@   requires w != nil
+//@   assigns content(w)
+//@   ensures spec_written(w) == old(spec_written(w)) + spec_importBlock(pathToName)
+//@   loop 1 invariant eq(importPaths, ks1[:it1])
+//@   loop 2 invariant spec_written(w) == old(spec_written(w)) + "\nimport (\n" + spec_importLines(xs2, pathToName, it2)
+
+// spec_header: the comment naming the generator, and the package clause.
+func spec_header(pkgName string, gen string) string {
+	return "/*\nPackage " + pkgName + " GENERATED BY gengo:" + gen + " \nDON'T EDIT THIS FILE\n*/\npackage " + pkgName + "\n"
+}
+
+// spec_source: the text handed to the parser: header, package clause, import block, then the rendered body verbatim.
+func spec_source(pkgName string, gen string, imports map[string]string, body string) string {
+	return spec_header(pkgName, gen) + spec_importBlock(imports) + body
+}
+
+// spec_outPath: where a genfile is written: <source dir of the package>/<base>.<generator>.go
+func spec_outPath(dir string, base string, gen string) string {
+	return path.Join(dir, base+"."+gen+".go")
+}
+
+const spec_parseMode = parser.ParseComments | parser.SkipObjectResolution | parser.AllErrors
+
+//@ func genfile.WriteToFile
+//@   props C01 C02 C07
+//@   requires ff != nil && ff.body != nil && ff.imports != nil && c != nil && args != nil
+//@   requires c.Package("") != nil && c.Package("").Pkg() != nil && c.Package("").Module() != nil
+//@   assigns content(ff.body)
+//@   effects
+//@   loop 1 assume forall i int :: 0 <= i && i < len(sl) ==> sl[i] != nil && 1 <= sl[i].Pos.Line && sl[i].Pos.Line <= len(lines)
+//@   note (loop 1 assume) go/scanner reports error positions inside the text it was given: entries non-nil, line numbers between 1 and the number of lines
+//@   ensures len(old(spec_written(ff.body))) == 0 ==> result == nil && eq(spec_fx(), old(spec_fx())) && eq(spec_pipeline(), old(spec_pipeline()))
+//@   ensures len(spec_fx()) >= len(old(spec_fx())) && eq(spec_fx()[:len(old(spec_fx()))], old(spec_fx()))
+//@   ensures forall i int :: len(old(spec_fx())) <= i && i < len(spec_fx()) ==> spec_fx()[i].Path == spec_outPath(c.Package("").SourceDir(), args.OutputFileBaseName, ff.name) && (spec_fx()[i].Kind == spec_Open || spec_fx()[i].Kind == spec_Write)
+//@   ensures len(spec_fx()) <= len(old(spec_fx()))+2
+//@   ensures len(old(spec_written(ff.body))) > 0 ==> spec_parsed() == spec_source(c.Package("").Pkg().Name(), ff.name, ff.imports.Imports(), old(spec_written(ff.body))) && spec_parsedName() == spec_outPath(c.Package("").SourceDir(), args.OutputFileBaseName, ff.name)
+//@   ensures len(old(spec_written(ff.body))) > 0 && spec_parseErr(c, args, ff, old(spec_written(ff.body))) != nil ==> result == spec_parseErr(c, args, ff, old(spec_written(ff.body))) && eq(spec_fx(), old(spec_fx()))
+//@   ensures len(old(spec_written(ff.body))) > 0 && result == nil ==> len(spec_fx()) > len(old(spec_fx())) && spec_fx()[len(old(spec_fx()))].Kind == spec_Open
+//@   ensures len(spec_fx()) == len(old(spec_fx()))+2 ==> eq(spec_pipeline(), append(old(spec_pipeline()), "parse|"+spec_itoa(int(spec_parseMode)), "sortimports", "gofumpt|"+("go"+c.Package("").Module().GoVersion)+"|"+c.Package("").Module().Path, "print"))
+//@   loop 1 invariant true
+//@   loop 2 invariant true
+//@   note C02: the assembled source is parsed BEFORE the destination is opened; a parse error is returned and the effect log is untouched. C07: every effect is on <SourceDir>/<base>.<generator>.go. C01: a written file went through parse(ParseComments) -> SortImports -> gofumpt(LangVersion "go"+GoVersion, ModulePath) -> go/format, in this order, and the parsed text is spec_source(...)
+
+// spec_parseErr: the error (nil if none) of parsing the assembled source of a genfile whose rendered body is body.
+func spec_parseErr(c Context, args *GeneratorArgs, ff *genfile, body string) error {
+	_, err := parser.ParseFile(nil, spec_outPath(c.Package("").SourceDir(), args.OutputFileBaseName, ff.name),
+		[]byte(spec_source(c.Package("").Pkg().Name(), ff.name, ff.imports.Imports(), body)), spec_parseMode)
+	return err
+}
+
+func spec_itoa(n int) string { return strconv.Itoa(n) }
+
+//@ func genfile.Filename
+//@   props C07 C01
+//@   pure
+//@   requires ff != nil && args != nil
+//@   ensures result == args.OutputFileBaseName + "." + ff.name + ".go"
+
+//@ func genfile.IsZero
+//@   props C07
+//@   pure
+//@   requires c != nil
+//@   ensures result == (c.body == nil || len(spec_written(c.body)) == 0)
+
+//@ func gengoCtx.IsZero
+//@   props C07
+//@   pure
+//@   requires c != nil && c.genfile != nil
+//@   ensures result == ((c.genfile.body == nil || len(spec_written(c.genfile.body)) == 0) && !c.ignore)
+
 //@ func snippetWriter.Dumper
 //@   props C01
 //@   pure
@@ -83,6 +260,8 @@ func spec_concatN(xs []string, n int) string {
 //@   ensures c.sumFile != nil && !has(c.sumFile.Data, pkgPath) ==> result
 //@   ensures !result ==> !c.args.Force && c.sumFile != nil && c.universe.SumFile() != nil && c.sumFile.Sum(pkgPath) == c.universe.SumFile().Sum(pkgPath)
 //@   ensures c.sumFile != nil && c.universe.SumFile() != nil && c.sumFile.Sum(pkgPath) != c.universe.SumFile().Sum(pkgPath) ==> result
+
+var _ namer.ImportTracker
 
 // ---- govc prelude: ghost helpers of the clause language (identical in every contracts_verif.go) ----
 
@@ -145,3 +324,46 @@ func spec_sortedKeys[V any](m map[string]V) []string {
 	}
 	return keys
 }
+
+// ---- ghost logs ----
+
+// spec_Effect: one file-system effect of a run (the only modelled ways bytes on disk change).
+type spec_Effect struct {
+	Kind int // spec_Open: file created or truncated; spec_Write: bytes written to an open file; spec_Remove; spec_SaveSum: gengo.sum rewritten
+	Path string
+}
+
+const (
+	spec_Open    = 1
+	spec_Write   = 2
+	spec_Remove  = 3
+	spec_SaveSum = 4
+)
+
+// spec_fx(): the effect log so far, in order (ghost).
+func spec_fx() []spec_Effect { panic("ghost: effect log") }
+
+// spec_Call: one invocation of user code by the framework.
+type spec_Call struct {
+	Kind int // spec_GenType: Generator.GenerateType; spec_GenAlias: AliasGenerator.GenerateAliasType; spec_Deferred: a callback registered with Defer
+	Gen  any   // the generator (or the callback)
+	Obj  any   // the type it was invoked for
+	Err  error // what the call returned
+}
+
+const (
+	spec_GenType  = 1
+	spec_GenAlias = 2
+	spec_Deferred = 3
+)
+
+// spec_calls(): the call log so far, in order (ghost).
+func spec_calls() []spec_Call { panic("ghost: call log") }
+
+// spec_pipeline(): the formatter steps applied so far, in order (ghost): "parse|<mode>", "sortimports",
+// "gofumpt|<LangVersion>|<ModulePath>", "print".
+func spec_pipeline() []string { panic("ghost: formatter pipeline log") }
+
+// spec_parsed() / spec_parsedName(): the source text and file name most recently handed to go/parser (ghost).
+func spec_parsed() string     { panic("ghost: parsed text") }
+func spec_parsedName() string { panic("ghost: parsed file name") }
